@@ -4,6 +4,7 @@ package main
 // with -tags=verif, SSA build with instantiated generics.
 
 import (
+	"regexp"
 	"fmt"
 	"go/ast"
 	"go/parser"
@@ -32,6 +33,7 @@ type Harness struct {
 	endLn    int
 	Requires []string
 	Vacuity  bool
+	Secondary bool // not the first ensures clause of a function contract: obligations of the body itself are left to the first
 	Summary  bool
 	Insts    []*ssa.Function
 }
@@ -51,6 +53,7 @@ type Program struct {
 	Warnings  []string
 	Injected  map[string][]byte
 	Summaries map[string]*FuncSummary
+	PureFns   map[string]bool // "pkgpath.name": ghost functions of contract files marked `logical` (pure; calls are evaluated to one merged value)
 }
 
 // FuncSummary: predicate forms of a function contract (requires, ensures) at
@@ -249,6 +252,7 @@ func (g *ghostGen) generate() (string, []*Harness) {
 	// ---- body first (to learn which imports are used) ----
 	var drv []string
 	bodyEmit := func(format string, a ...any) { fmt.Fprintf(&body, format, a...) }
+	usedBase := map[string]int{}
 	for _, cf := range g.cf {
 		cf.declLn = nil
 		if cf.DeclsBad != "" {
@@ -263,6 +267,11 @@ func (g *ghostGen) generate() (string, []*Harness) {
 				continue
 			}
 			start := strings.Count(body.String(), "\n")
+			if cf.Logical {
+				for _, m := range rePureFn.FindAllStringSubmatch(d, -1) {
+					pureFnNames[pkgPathOf(cf.PkgDir)+"."+m[1]] = true
+				}
+			}
 			bodyEmit("%s\n", desugarDecl(d, cf.Logical))
 			cf.declLn = append(cf.declLn, [2]int{start, strings.Count(body.String(), "\n")})
 		}
@@ -461,7 +470,7 @@ func (g *ghostGen) generate() (string, []*Harness) {
 					it.Stale = fmt.Sprintf("contract names %d parameters, function has a different count", len(it.Names))
 					continue
 				}
-				paramDecl = strings.Join(params, ", ")
+				paramDecl = strings.Join(append(append([]string(nil), params...), it.GhostParams...), ", ")
 				nres := 0
 				if d.Type.Results != nil {
 					for _, f := range d.Type.Results.List {
@@ -498,6 +507,13 @@ func (g *ghostGen) generate() (string, []*Harness) {
 			if it.SchemaN >= 0 && it.Kind == "lemma" && !strings.Contains(it.Name, fmt.Sprint(it.SchemaN)) {
 				base += fmt.Sprintf("_N%d", it.SchemaN)
 			}
+			// several contract items may speak about the same function: unique harness names
+			if usedBase[base] > 0 {
+				usedBase[base]++
+				base = fmt.Sprintf("%s_x%d", base, usedBase[base])
+			} else {
+				usedBase[base] = 1
+			}
 			var reqs []string
 			for _, c := range it.Clauses {
 				if c.Kind == "requires" {
@@ -509,7 +525,7 @@ func (g *ghostGen) generate() (string, []*Harness) {
 				if c.Kind != "ensures" {
 					continue
 				}
-				h := &Harness{Item: it, Clause: ci, GhostFn: fmt.Sprintf("%s_e%d", base, ei), Requires: reqs}
+				h := &Harness{Item: it, Clause: ci, GhostFn: fmt.Sprintf("%s_e%d", base, ei), Requires: reqs, Secondary: ei > 0 && it.Kind == "func" && it.Logical}
 				tag := c.Tag
 				if tag == "" {
 					tag = fmt.Sprintf("ens#%d", ei)
@@ -737,6 +753,18 @@ func (g *ghostGen) addImport(name, path string) {
 		return
 	}
 	g.imports[name] = path
+}
+
+var rePureFn = regexp.MustCompile(`(?m)^\s*func\s+([A-Za-z_][A-Za-z0-9_]*)`)
+
+// names of the pure ghost functions seen while generating ghost files (copied into Program.PureFns)
+var pureFnNames = map[string]bool{}
+
+func pkgPathOf(dir string) string {
+	if dir == "" {
+		return modPath
+	}
+	return modPath + "/" + dir
 }
 
 func desugarDecl(d string, logical bool) string {
@@ -1022,6 +1050,10 @@ func LoadProgram(repo string, props map[string]bool) (*Program, error) {
 		}
 	}
 	p.Summaries = map[string]*FuncSummary{}
+	p.PureFns = map[string]bool{}
+	for k := range pureFnNames {
+		p.PureFns[k] = true
+	}
 	for _, h := range p.Harnesses {
 		if !h.Summary {
 			continue
